@@ -1,0 +1,51 @@
+//! Verification hooks (feature `rssched_verif`): a process-wide sink for observations.
+//! Nothing here influences the solver; events are only appended.
+use std::sync::Mutex;
+
+use solution::Schedule;
+
+/// one arc of a per-type min-cost-flow network, endpoints as (is_depot, id, is_right_side)
+#[derive(Clone, Debug)]
+pub struct FlowArc {
+    pub src: (bool, u16, bool),
+    pub dst: (bool, u16, bool),
+    pub lower_bound: i64,
+    pub upper_bound: i64,
+    pub cost: i64,
+    pub flow: i64,
+}
+
+#[derive(Clone)]
+pub enum Event {
+    /// a schedule accepted by the local search (between-steps callback)
+    Step(Schedule),
+    /// a named stage result of the solve pipeline
+    Stage(String, Schedule),
+    /// the flow network of one vehicle type with the computed flow, the allotted maintenance
+    /// slots (node, count) and the decoded tours
+    Flow {
+        vehicle_type: u16,
+        arcs: Vec<FlowArc>,
+        slots: Vec<(u16, u32)>,
+        tours: Vec<Vec<u16>>,
+    },
+}
+
+static EVENTS: Mutex<Vec<Event>> = Mutex::new(Vec::new());
+
+pub fn record(event: Event) {
+    EVENTS.lock().unwrap_or_else(|e| e.into_inner()).push(event);
+}
+
+pub fn record_step(schedule: &Schedule) {
+    record(Event::Step(schedule.clone()));
+}
+
+pub fn record_stage(name: &str, schedule: &Schedule) {
+    record(Event::Stage(name.to_string(), schedule.clone()));
+}
+
+/// returns all events recorded so far and clears the sink
+pub fn take() -> Vec<Event> {
+    std::mem::take(&mut *EVENTS.lock().unwrap_or_else(|e| e.into_inner()))
+}
